@@ -57,6 +57,8 @@ def custom_classes():
     alt       RowFilter: keeps rows at even positions (order and count dependent, declared like Slice)
     atleast n RowFilter: keeps every row if there are at least n of them, else none (count dependent, order independent)
     rev       Reordering: reverses the rows (order dependent, not count dependent)
+    rot       Reordering: moves the last row to the front (order dependent; unlike reverse not an order isomorphism:
+              removing a row changes which row is moved)
     droprep t RowFilter: drops a row whose value in column t equals the previous row's (order dependent, not count dependent)"""
     global _CUSTOM
     if _CUSTOM is None:
@@ -150,6 +152,15 @@ def custom_classes():
                 return True
 
         @dataclasses.dataclass(frozen=True)
+        class Rotate(Reordering):
+            def __str__(self):
+                return "rotate"
+
+            @property
+            def is_order_dependent(self):
+                return True
+
+        @dataclasses.dataclass(frozen=True)
         class DropRepeats(RowFilter):
             tag: ColumnTag
 
@@ -171,7 +182,7 @@ def custom_classes():
             def applied_max_rows(self, target):
                 return target.max_rows
 
-        _CUSTOM = (TotalSort, EvenFilter, Alternate, AtLeast, Reverse, DropRepeats)
+        _CUSTOM = (TotalSort, EvenFilter, Alternate, AtLeast, Reverse, DropRepeats, Rotate)
     return _CUSTOM
 
 
@@ -181,10 +192,10 @@ def st_op(draw, cols, universe, fixed_cols, kind=None, custom=False):
     free = [t for t in universe if t not in cols]
     ks = ["sel", "slice", "dedup", "pjoin"]
     if custom and draw(st.integers(0, 5)) == 0:
-        k = draw(st.sampled_from(["alt", "atleast", "rev"] + (["cfilt", "tsort", "droprep"] if cols else [])))
+        k = draw(st.sampled_from(["alt", "atleast", "rev", "rot"] + (["cfilt", "tsort", "droprep"] if cols else [])))
         if k == "atleast":
             return (k, draw(st.integers(1, 4)))
-        return (k, draw(st.sampled_from(cols))) if k not in ("alt", "rev") else (k,)
+        return (k, draw(st.sampled_from(cols))) if k not in ("alt", "rev", "rot") else (k,)
     if cols:
         ks += ["sort", "proj", "proj"]
         if free:
@@ -221,7 +232,7 @@ def st_case(draw):
     cols1 = cols_after(existing, cols0, frozenset(fixed[1]))
     # the new operation is drawn for the columns it will see, but may also name a tag the existing operation hid
     # (the new operation may be user-defined as well: it then runs whatever commute() its base class provides)
-    new = draw(st_op(cols1, universe, fixed[1], custom=existing[0] not in ("tsort", "cfilt", "alt", "atleast", "rev", "droprep")))
+    new = draw(st_op(cols1, universe, fixed[1], custom=existing[0] not in ("tsort", "cfilt", "alt", "atleast", "rev", "rot", "droprep")))
     if new[0] == "pjoin" and fixed[1] and draw(st.integers(0, 2)) == 0:
         # the fixed operand is itself a tree: deduplication, then a projection (which may bring duplicates back)
         order = draw(st.permutations(sorted_tags(fixed[1])))
@@ -282,7 +293,7 @@ def well_formed_columns(spec, fixed_cols):
         return set(cols_p(spec[1]))
     if k == "sort":
         return set().union(*[cols_e(e) for e, _ in spec[1]]) if spec[1] else set()
-    if k in ("dedup", "slice", "alt", "atleast", "rev"):
+    if k in ("dedup", "slice", "alt", "atleast", "rev", "rot"):
         return set()
     if k in ("cfilt", "tsort", "droprep"):
         return {spec[1]}
@@ -314,6 +325,8 @@ def apply_spec(spec, rows, cols, fixed_rows, fixed_cols):
         return rows[::2]
     if k == "rev":
         return rows[::-1]
+    if k == "rot":
+        return rows[-1:] + rows[:-1]
     if k == "droprep":
         out = []
         for r in rows:
@@ -349,10 +362,12 @@ def to_lib(spec, fixed_rel):
         return Slice(spec[1], spec[2])
     if k == "rev":
         return custom_classes()[4]()
+    if k == "rot":
+        return custom_classes()[6]()
     if k == "droprep":
         return custom_classes()[5](spec[1])
     if k in ("tsort", "cfilt", "alt"):
-        TotalSort, EvenFilter, Alternate, AtLeast, Reverse, DropRepeats = custom_classes()
+        TotalSort, EvenFilter, Alternate, AtLeast, Reverse, DropRepeats, Rotate = custom_classes()
         return TotalSort(spec[1]) if k == "tsort" else Alternate() if k == "alt" else EvenFilter(spec[1])
     if k == "atleast":
         return custom_classes()[3](spec[1])
@@ -367,9 +382,11 @@ def from_lib(op, fixed_rel):
 
     if isinstance(op, Identity):
         return ("ident",)
-    TotalSort, EvenFilter, Alternate, AtLeast, Reverse, DropRepeats = custom_classes()
+    TotalSort, EvenFilter, Alternate, AtLeast, Reverse, DropRepeats, Rotate = custom_classes()
     if isinstance(op, Reverse):
         return ("rev",)
+    if isinstance(op, Rotate):
+        return ("rot",)
     if isinstance(op, DropRepeats):
         return ("droprep", op.tag)
     if isinstance(op, AtLeast):
@@ -410,6 +427,8 @@ def fmt_spec(s):
         return "custom-filter(rows at even positions)"
     if k == "rev":
         return "custom-reordering(reverse)"
+    if k == "rot":
+        return "custom-reordering(last row first)"
     if k == "droprep":
         return f"custom-filter(drop rows repeating the previous {s[1]})"
     if k == "atleast":
@@ -594,7 +613,7 @@ def exhaustive(tier, stats, shard, nshards, run):
     ]
     fixed = ("L1", (A, D), ((0, 7), (1, 8), (2, 9), (2, 6)), 1, "data", (4, 4), "plain")
     g = grid()
-    customs = [("tsort", A), ("tsort", C), ("alt",), ("cfilt", A), ("cfilt", C), ("atleast", 3), ("atleast", 5), ("rev",), ("droprep", A), ("droprep", B)]
+    customs = [("tsort", A), ("tsort", C), ("alt",), ("cfilt", A), ("cfilt", C), ("atleast", 3), ("atleast", 5), ("rev",), ("rot",), ("droprep", A), ("droprep", B)]
     identity = ("L1", (), ((),), 1, "data", (1, 1), "plain")
     idjoins = [("pjoin", False, ("ge", ("ref", A), ("lit", 1))), ("pjoin", True, ("eq", ("ref", B), ("ref", C))), ("pjoin", False, None)]
     idx = 0
